@@ -7,6 +7,17 @@ open TantivyModel.WriterSpec
 
 variable {α : Type}
 
+/-! ### the extracted comparisons
+
+The model evaluates the four opstamp comparisons of the delete machinery with the operators the
+extractor finds in the source (`Gen/WriterGuards.lean`).  The proofs are made for these
+operators: if the source changes one of them, the executable model follows the source, and the
+equations below - hence every theorem of `Props/C02.lean` that rests on them - no longer check. -/
+@[simp] theorem isDeletedGuard_eq (a b : Nat) : isDeletedGuard a b = decide (a < b) := rfl
+@[simp] theorem breakGuard_eq (a b : Nat) : breakGuard a b = decide (a > b) := rfl
+@[simp] theorem behindGuard_eq (a b : Nat) : behindGuard a b = decide (a < b) := rfl
+@[simp] theorem catchUpGuard_eq (a b : Nat) : catchUpGuard a b = decide (a < b) := rfl
+
 /-- the delete operations a `compute_deleted_bitset(.., target)` run consumes -/
 def processed (target : Nat) (rest : List (DelOp α)) : List (DelOp α) :=
   rest.takeWhile (fun del => decide (del.op ≤ target))
@@ -42,7 +53,7 @@ theorem consume_spec (withMap : Bool) (target : Nat) (rest : List (DelOp α)) (d
     · have : ¬ del.op ≤ target := by omega
       simp [h, processed, this, hit]
     · have h2 : del.op ≤ target := by omega
-      simp only [h, if_false]
+      simp only [breakGuard_eq, decide_eq_true_eq, h, if_false]
       rw [ih, kill_eq]
       have hp : processed target (del :: rest) = del :: processed target rest := by
         simp [processed, h2]
